@@ -447,6 +447,16 @@ def classify_known(ctx, ent0):
     has_h = any(len(c[9]) > 0 for c in ent0[5])
     if (unS(ent0[3]) and not has_h) or any(len(c[9]) == 0 and unS(c[3]) for c in ent0[5]):
         ids.append("C02-encapsulation-id-without-hierarchy")
+    # C02-number-overflows-at-15-digits: a finite exponent / multiplier whose 15-digit text is beyond DBL_MAX
+    for u in ent0[4]:
+        for d in u[5]:
+            for tok in (d[3], d[4]):
+                try:
+                    f = float(tok[1:])
+                    if not (math.isinf(f) or math.isnan(f)) and math.isinf(float("%.15g" % f)):
+                        ids.append("C02-number-overflows-at-15-digits")
+                except (ValueError, OverflowError):
+                    pass
     return ids
 
 
@@ -640,8 +650,9 @@ def evaluate(ctx, case, cpp_line, ml_line, names, stats):
                 for k in known:
                     matched = k
                     break
-            if cls == "issues" and not pb_fixed and crossed_names(ent0) and ci1 == ["E:MAP_VARIABLES_UNIQUE"] * len(ci1):
-                matched = "C02-crossed-variable-names"
+            if cls == "issues" and not pb_fixed and "C02-number-overflows-at-15-digits" in known \
+                    and all(x in ("E:UNIT_ATTRIBUTE_MULTIPLIER_VALUE", "E:UNIT_ATTRIBUTE_EXPONENT_VALUE") for x in ci1):
+                matched = "C02-number-overflows-at-15-digits"
             if matched and ctx.known_finding(matched, what):
                 problems.append(("known:" + matched, what, {}))
             else:
